@@ -16,4 +16,19 @@ SendW == Send(MsgOf(Digit(wid, sent + 1)))
 NextW == (SendW \/ Handle \/ Recv \/ CommitFull \/ Close) /\ UNCHANGED wid
 SpecW == InitW /\ [][NextW]_<<vars, wid>>
 EmitW == mode = "closed" => PrintT(<<"REPLAY", ToJson([wid |-> wid, b |-> B, msgs |-> wl, points |-> points])>>)
+
+\* --- eviction workloads: upserts with timestamps on both sides of the cut-off, clock stopped; a line per
+\* quiescent state (everything committed, nothing left to evict) with the content that must remain
+Ups == [op : {"upsert"}, k : Keys, p : Packets, t : {0}]
+SendE == \E m \in Ups : Send(m)
+NextE == (SendE \/ Handle \/ Recv \/ CommitFull \/ CommitTimeout \/ EvictScan) /\ UNCHANGED wid
+SpecE == Init /\ wid = 0 /\ [][NextE]_<<vars, wid>>
+Quiescent == /\ mode = "run" /\ inbox = <<>> /\ ~open /\ ~replied /\ sent = MaxMsgs /\ acked = sent
+             /\ {e \in durable.ix : e[1] < Cutoff} = {}
+EmitE == Quiescent => PrintT(<<"REPLAY", ToJson([msgs |-> wl, final |-> durable.pk, cutoff |-> Cutoff])>>)
+\* in a quiescent state exactly the packets that are not older than the cut-off remain: the newest published one per key
+NewestPub(k) == LET S == {e[2] : e \in {x \in published : x[1] = k}} IN
+                IF S = {} THEN NoP ELSE CHOOSE m \in S : \A q \in S : ~MoreRecent(q, m)
+QuiescentExact == Quiescent => \A k \in Keys : durable.pk[k] = (IF NewestPub(k).ts >= Cutoff THEN NewestPub(k) ELSE NoP)
+ViewE == <<MCView, [i \in 1..Len(wl) |-> <<wl[i].k, wl[i].ts, wl[i].pl>>]>>
 =============================================================================
